@@ -102,6 +102,12 @@ def genCode (kind : String) (T i state : Nat) : Option (Nat × Nat) :=
   else if kind = "skew" then
     let st := lcg state; let r := (st >>> 33) % 1000
     some (if r < 900 then (r % 3) % T else (st >>> 43) % T, st)
+  else if kind = "fib" then
+    let rec go (fuel a b lo sym : Nat) : Nat :=
+      match fuel with
+      | 0 => sym
+      | f + 1 => if i < lo + a then sym else go f b (a + b) (lo + a) (sym + 1)
+    some ((go 64 200 304 0 0 + state) % T, state)
   else if kind = "rand" then
     let st := lcg state; some ((st >>> 33) % T, st)
   else none
